@@ -50,7 +50,8 @@ type EntryResult struct {
 
 func main() {
 	// the loaded SSA program is a large, stable heap: collect rarely
-	debug.SetGCPercent(800)
+	debug.SetGCPercent(300)
+	debug.SetMemoryLimit(5 << 30)
 	if len(os.Args) < 2 {
 		usage()
 	}
